@@ -631,6 +631,15 @@ func (e *Engine) mapOp(n *Node, op *Op) error {
 		if total > 6000 {
 			total = 6000
 		}
+		if g := e.Cfg.HipGroups; g > 0 {
+			// keys of one hash-input group collide at the first level of the default digester; the collision limit
+			// stays at 255, so a map never holds more than 120 keys per group on average (no refusal can occur:
+			// refusals are C12's business, with generated digesters and a computed rule)
+			if room := 120*g - len(n.Ents); total > room {
+				total = room
+				e.Stats.label("grow_capped_for_collision_limit")
+			}
+		}
 		for i := 0; i < total; i++ {
 			km := U64(1_000_000 + (op.P%1000)*100_000 + uint64(i))
 			vd := &VD{K: "u", N: uint64(i)}
